@@ -725,7 +725,7 @@ impl Driver {
                 }
             }
         }
-        self.w.inject(&s);
+        self.w.rewrite_bids_and_version(&s);
         self.w.project()
     }
 
@@ -867,7 +867,7 @@ impl Driver {
                             b.events = vec![];
                         }
                     }
-                    self.w.inject(&s2);
+                    self.w.rewrite_bids_and_version(&s2);
                     st = self.w.project();
                     need_reset = true;
                 }
